@@ -801,6 +801,7 @@ func (a *Agent) initialCheckingTimeout() time.Duration {
 }
 
 func (a *Agent) updateConnectionState(newState ConnectionState) {
+	verifhook.Note("agent.state", a)
 	if a.connectionState != newState {
 		// Connection has gone to failed, release all gathered candidates
 		if newState == ConnectionStateFailed {
@@ -820,6 +821,7 @@ func (a *Agent) updateConnectionState(newState ConnectionState) {
 }
 
 func (a *Agent) setSelectedPair(pair *CandidatePair) {
+	verifhook.Note("agent.state", a)
 	if pair == nil {
 		var nilPair *CandidatePair
 		a.selectedPair.Store(nilPair)
@@ -843,6 +845,7 @@ func (a *Agent) setSelectedPair(pair *CandidatePair) {
 }
 
 func (a *Agent) pingAllCandidates() {
+	verifhook.Note("agent.state", a)
 	a.log.Trace("Pinging all candidates")
 
 	if len(a.checklist) == 0 {
@@ -897,6 +900,7 @@ func (a *Agent) keepAliveCandidatesForRenomination() {
 }
 
 func (a *Agent) getBestAvailableCandidatePair() *CandidatePair {
+	verifhook.Note("agent.state", a)
 	var best *CandidatePair
 	for _, p := range a.checklist {
 		if p.state == CandidatePairStateFailed {
@@ -914,6 +918,7 @@ func (a *Agent) getBestAvailableCandidatePair() *CandidatePair {
 }
 
 func (a *Agent) getBestValidCandidatePair() *CandidatePair {
+	verifhook.Note("agent.state", a)
 	var best *CandidatePair
 	for _, p := range a.checklist {
 		if p.state != CandidatePairStateSucceeded {
@@ -931,6 +936,7 @@ func (a *Agent) getBestValidCandidatePair() *CandidatePair {
 }
 
 func (a *Agent) addPair(local, remote Candidate) *CandidatePair {
+	verifhook.Note("agent.state", a)
 	a.nextPairID++
 	p := newCandidatePair(local, remote, a.isControlling.Load())
 	p.id = a.nextPairID
@@ -941,6 +947,7 @@ func (a *Agent) addPair(local, remote Candidate) *CandidatePair {
 }
 
 func (a *Agent) findPair(local, remote Candidate) *CandidatePair {
+	verifhook.Note("agent.state", a)
 	for _, p := range a.checklist {
 		if p.Local.Equal(local) && p.Remote.Equal(remote) {
 			return p
@@ -1313,6 +1320,7 @@ func (a *Agent) replaceRedundantPeerReflexiveCandidates(set []Candidate, cand Ca
 // addRemoteCandidate assumes you are holding the lock (must be execute using a.run).
 // Returns true when the candidate is accepted (including duplicates).
 func (a *Agent) addRemoteCandidate(cand Candidate) bool { //nolint:cyclop
+	verifhook.Note("agent.state", a)
 	if !a.shouldAcceptRemoteCandidate(cand) {
 		return false
 	}
@@ -1602,6 +1610,7 @@ func (a *Agent) abortStartedCandidateIO() {
 //
 // This is used for restarts, failures and on close.
 func (a *Agent) deleteAllCandidates() {
+	verifhook.Note("agent.state", a)
 	for net, cs := range a.localCandidates {
 		for _, c := range cs {
 			if err := c.close(); err != nil {
@@ -1621,6 +1630,7 @@ func (a *Agent) deleteAllCandidates() {
 }
 
 func (a *Agent) findRemoteCandidate(networkType NetworkType, addr netip.AddrPort) Candidate {
+	verifhook.Note("agent.state", a)
 	set := a.remoteCandidates[networkType]
 	for _, c := range set {
 		if addrPortEqual(c.addrPort(), addr) {
@@ -1632,6 +1642,7 @@ func (a *Agent) findRemoteCandidate(networkType NetworkType, addr netip.AddrPort
 }
 
 func (a *Agent) sendBindingRequest(msg *stun.Message, local, remote Candidate) {
+	verifhook.Note("agent.state", a)
 	a.log.Tracef("Ping STUN from %s to %s", local, remote)
 
 	// Extract nomination value if present
@@ -1699,6 +1710,7 @@ func (a *Agent) sendBindingSuccess(m *stun.Message, local, remote Candidate) {
 // RTT is known or 500 ms otherwise.
 // https://tools.ietf.org/html/rfc8445#appendix-B.1
 func (a *Agent) invalidatePendingBindingRequests(filterTime time.Time) {
+	verifhook.Note("agent.state", a)
 	initialSize := len(a.pendingBindingRequests)
 
 	temp := a.pendingBindingRequests[:0]
@@ -1763,6 +1775,7 @@ func (a *Agent) handleRoleConflict(msg *stun.Message, local, remote Candidate, r
 
 // handleInbound processes STUN traffic from a remote candidate.
 func (a *Agent) handleInbound(msg *stun.Message, local Candidate, remote netip.AddrPort) {
+	verifhook.Note("agent.state", a)
 	if msg == nil || local == nil {
 		return
 	}
